@@ -12,7 +12,7 @@ PROP = dict(
                "definitions, well lists, tuning, tables, equilibration, IO/simulation config, summary nodes; a member reachable through "
                "none of these and absent from both serializeOp and operator== stays invisible. EclipseState's grid and field properties "
                "are excluded as documented. Action::State is exercised through the Schedule path only.",
-    technique="round-trip differential monitor with three independent observers (operator==, serializeOp visitor, public queries)",
+    technique="round-trip differential monitor with four observers (operator==, serializeOp visitor, public queries incl. UDQ evaluation and evaluated well/group controls, upstream Schedule::cmp)",
     rule="case = one generated model / shipped deck (4+ objects round-tripped) or one set of random dynamic states; non-trivial: the "
          "objects were built; distinct = hash of the deck text / random state",
     stages=[
